@@ -9,12 +9,12 @@
 #include <gmssl/sm2.h>
 
 #ifdef VERIF_CBMC
-int G_fb_last; unsigned G_fb_calls; const void *G_fb_in;                     /* C1 import: answer, source bytes */
-int G_az_last; unsigned G_az_calls; const void *G_az_buf; size_t G_az_len;   /* all-zero test of the KDF output */
-unsigned G_kdf_calls; size_t G_kdf_outlen; const void *G_kdf_out; const void *G_kdf_in; size_t G_kdf_inlen;
-unsigned G_pmul_calls; const void *G_pmul_k; const void *G_pmul_P; const void *G_pmul_R;
-unsigned G_tb_calls; const void *G_tb_P; const void *G_tb_out;
-int G_dd_last; unsigned G_dd_calls; const void *G_dd_key; const void *G_dd_out;
+int G_fb_last; unsigned G_fb_calls; size_t G_fb_in;                     /* C1 import: answer, source bytes */
+int G_az_last; unsigned G_az_calls; size_t G_az_buf; size_t G_az_len;   /* all-zero test of the KDF output */
+unsigned G_kdf_calls; size_t G_kdf_outlen; size_t G_kdf_out; size_t G_kdf_in; size_t G_kdf_inlen;
+unsigned G_pmul_calls; size_t G_pmul_k; size_t G_pmul_P; size_t G_pmul_R;
+unsigned G_tb_calls; size_t G_tb_P; size_t G_tb_out;
+int G_dd_last; unsigned G_dd_calls; size_t G_dd_key; size_t G_dd_out;
 #endif
 
 #ifdef CONTRACT_ENC_RECORDING
@@ -22,17 +22,17 @@ int sm2_z256_point_from_bytes(SM2_Z256_POINT *P, const uint8_t in[64])
 REQUIRES(WR_OK(P, sizeof(*P)) && RD_OK(in, 64))
 ASSIGNS(OBJ_UPTO((uint8_t *)P, sizeof(*P)), G_fb_last, G_fb_calls, G_fb_in)
 ENSURES(RET == 1 || RET == 0 || RET == -1)
-ENSURES(G_fb_last == RET && G_fb_calls == OLD(G_fb_calls) + 1 && G_fb_in == (const void *)in)
+ENSURES(G_fb_last == RET && G_fb_calls == OLD(G_fb_calls) + 1 && G_fb_in == (size_t)in)
 ;
 void sm2_z256_point_mul(SM2_Z256_POINT *R, const sm2_z256_t k, const SM2_Z256_POINT *P)
 REQUIRES(WR_OK(R, sizeof(*R)) && RD_OK(k, 32) && RD_OK(P, sizeof(*P)))
 ASSIGNS(OBJ_UPTO((uint8_t *)R, sizeof(*R)), G_pmul_calls, G_pmul_k, G_pmul_P, G_pmul_R)
-ENSURES(G_pmul_calls == OLD(G_pmul_calls) + 1 && G_pmul_k == (const void *)k && G_pmul_P == (const void *)P && G_pmul_R == (const void *)R)
+ENSURES(G_pmul_calls == OLD(G_pmul_calls) + 1 && G_pmul_k == (size_t)k && G_pmul_P == (size_t)P && G_pmul_R == (size_t)R)
 ;
 int sm2_z256_point_to_bytes(const SM2_Z256_POINT *P, uint8_t out[64])
 REQUIRES(RD_OK(P, sizeof(*P)) && WR_OK(out, 64))
 ASSIGNS(OBJ_UPTO(out, 64), G_tb_calls, G_tb_P, G_tb_out)
-ENSURES(G_tb_calls == OLD(G_tb_calls) + 1 && G_tb_P == (const void *)P && G_tb_out == (const void *)out)
+ENSURES(G_tb_calls == OLD(G_tb_calls) + 1 && G_tb_P == (size_t)P && G_tb_out == (size_t)out)
 ;
 #endif
 
@@ -43,7 +43,7 @@ REQUIRES(len <= 65536 && (len == 0 || RD_OK(buf, len)))
 ASSIGNS(G_az_last, G_az_calls, G_az_buf, G_az_len)
 ENSURES(RET == 1 || RET == 0)
 ENSURES(len == 0 IMPLIES RET == 1)
-ENSURES(G_az_last == RET && G_az_calls == OLD(G_az_calls) + 1 && G_az_buf == (const void *)buf && G_az_len == len)
+ENSURES(G_az_last == RET && G_az_calls == OLD(G_az_calls) + 1 && G_az_buf == (size_t)buf && G_az_len == len)
 #else
 ASSIGNS()
 ENSURES(RET == 1 || RET == 0)
@@ -58,7 +58,7 @@ REQUIRES(inlen <= 4096 && RD_OK(in, inlen) && outlen <= 65536 && (outlen == 0 ||
 #ifdef CONTRACT_ENC_RECORDING
 ASSIGNS(outlen != 0: OBJ_UPTO(out, outlen); G_kdf_calls, G_kdf_outlen, G_kdf_out, G_kdf_in, G_kdf_inlen)
 ENSURES(RET == 1)
-ENSURES(G_kdf_calls == OLD(G_kdf_calls) + 1 && G_kdf_outlen == outlen && G_kdf_out == (const void *)out && G_kdf_in == (const void *)in && G_kdf_inlen == inlen)
+ENSURES(G_kdf_calls == OLD(G_kdf_calls) + 1 && G_kdf_outlen == outlen && G_kdf_out == (size_t)out && G_kdf_in == (size_t)in && G_kdf_inlen == inlen)
 #else
 ASSIGNS(outlen != 0: OBJ_UPTO(out, outlen); G_fin_fed, G_fin_tbyte, G_fin_tseen, G_fin_calls)
 ENSURES(RET == 1)
@@ -94,20 +94,20 @@ REQUIRES(RD_OK(key, sizeof(*key)) && RD_OK(in, sizeof(*in)) && WR_OK(out, in->ci
 #ifdef CONTRACT_DECRYPT_RECORDING
 ASSIGNS(OBJ_UPTO(out, in->ciphertext_size), *outlen, G_dd_last, G_dd_calls, G_dd_key, G_dd_out)
 ENSURES(RET == 1 || RET == -1)
-ENSURES(G_dd_last == RET && G_dd_calls == OLD(G_dd_calls) + 1 && G_dd_key == (const void *)key && G_dd_out == (const void *)out)
+ENSURES(G_dd_last == RET && G_dd_calls == OLD(G_dd_calls) + 1 && G_dd_key == (size_t)key && G_dd_out == (size_t)out)
 ENSURES(RET == 1 IMPLIES *outlen == in->ciphertext_size)
 #else
 ASSIGNS(OBJ_UPTO(out, in->ciphertext_size), *outlen, G_fb_last, G_fb_calls, G_fb_in, G_az_last, G_az_calls, G_az_buf, G_az_len,
 	G_kdf_calls, G_kdf_outlen, G_kdf_out, G_kdf_in, G_kdf_inlen, G_pmul_calls, G_pmul_k, G_pmul_P, G_pmul_R, G_tb_calls, G_tb_P, G_tb_out,
 	G_mcmp_last, G_mcmp_n, G_mcmp_a, G_mcmp_b, G_mcmp_calls, G_fin_fed, G_fin_tbyte, G_fin_tseen, G_fin_calls)
 ENSURES(RET == 1 || RET == -1)
-ENSURES(RET == 1 IMPLIES G_fb_calls == OLD(G_fb_calls) + 1 && G_fb_last == 1 && G_fb_in == (const void *)&in->point)
-ENSURES(RET == 1 IMPLIES G_pmul_calls == OLD(G_pmul_calls) + 1 && G_pmul_k == (const void *)key->private_key && G_tb_P == G_pmul_R)
-ENSURES(RET == 1 IMPLIES G_kdf_calls == OLD(G_kdf_calls) + 1 && G_kdf_outlen == in->ciphertext_size && G_kdf_in == G_tb_out && G_kdf_inlen == 64 && G_kdf_out == (const void *)out)
-ENSURES(RET == 1 IMPLIES G_az_calls == OLD(G_az_calls) + 1 && G_az_last == 0 && G_az_buf == (const void *)out && G_az_len == in->ciphertext_size)
+ENSURES(RET == 1 IMPLIES G_fb_calls == OLD(G_fb_calls) + 1 && G_fb_last == 1 && G_fb_in == (size_t)&in->point)
+ENSURES(RET == 1 IMPLIES G_pmul_calls == OLD(G_pmul_calls) + 1 && G_pmul_k == (size_t)key->private_key && G_tb_P == G_pmul_R)
+ENSURES(RET == 1 IMPLIES G_kdf_calls == OLD(G_kdf_calls) + 1 && G_kdf_outlen == in->ciphertext_size && G_kdf_in == G_tb_out && G_kdf_inlen == 64 && G_kdf_out == (size_t)out)
+ENSURES(RET == 1 IMPLIES G_az_calls == OLD(G_az_calls) + 1 && G_az_last == 0 && G_az_buf == (size_t)out && G_az_len == in->ciphertext_size)
 ENSURES(RET == 1 IMPLIES in->ciphertext_size >= 1 && *outlen == in->ciphertext_size)
 ENSURES(RET == 1 IMPLIES G_fin_calls == OLD(G_fin_calls) + 1 && G_fin_fed == (uint64_t)64 + in->ciphertext_size)
-ENSURES(RET == 1 IMPLIES G_mcmp_calls == OLD(G_mcmp_calls) + 1 && G_mcmp_last == 0 && G_mcmp_n == 32 && (G_mcmp_a == (const void *)in->hash || G_mcmp_b == (const void *)in->hash))
+ENSURES(RET == 1 IMPLIES G_mcmp_calls == OLD(G_mcmp_calls) + 1 && G_mcmp_last == 0 && G_mcmp_n == 32 && (G_mcmp_a == (size_t)in->hash || G_mcmp_b == (size_t)in->hash))
 /* M is in the middle of the C3 stream: position 32 + j is out[j] */
 ENSURES((RET == 1 && G_tk >= 32 && G_tk < (size_t)32 + in->ciphertext_size) IMPLIES (G_fin_tseen == 1 && G_fin_tbyte == out[G_tk - 32]))
 #endif
@@ -118,7 +118,7 @@ int sm2_decrypt(const SM2_KEY *key, const uint8_t *in, size_t inlen, uint8_t *ou
 REQUIRES((key == NULL || RD_OK(key, sizeof(*key))) && inlen <= 4096 && (in == NULL || RD_OK(in, inlen)) && (out == NULL || WR_OK(out, SM2_MAX_PLAINTEXT_SIZE)) && (outlen == NULL || WR_OK(outlen, sizeof(*outlen))))
 ASSIGNS(out != NULL: OBJ_UPTO(out, SM2_MAX_PLAINTEXT_SIZE); outlen != NULL: *outlen; G_dd_last, G_dd_calls, G_dd_key, G_dd_out)
 ENSURES(RET == 1 || RET == -1)
-ENSURES(RET == 1 IMPLIES G_dd_calls == OLD(G_dd_calls) + 1 && G_dd_last == 1 && G_dd_key == (const void *)key && G_dd_out == (const void *)out && *outlen <= SM2_MAX_PLAINTEXT_SIZE)
+ENSURES(RET == 1 IMPLIES G_dd_calls == OLD(G_dd_calls) + 1 && G_dd_last == 1 && G_dd_key == (size_t)key && G_dd_out == (size_t)out && *outlen <= SM2_MAX_PLAINTEXT_SIZE)
 ;
 
 #endif
